@@ -55,6 +55,33 @@ def check(case: dict) -> Verdict:
     return v
 
 
+@st.composite
+def hook_fault_case(draw):
+    case = draw(case_st())
+    case["placement"]["timeline"] = draw(st.sampled_from([True, "instance"]))
+    case["entry"] = draw(st.sampled_from([e for e in C.WIDE_ENTRIES if e.endswith(".execute")]))
+    site = draw(st.sampled_from(["on_metric", "on_metric", "on_log"]))
+    case["placement"]["metric" if site == "on_metric" else "log"] = True
+    case["fault"] = [site, draw(st.sampled_from([0, 1, 2, 3, "always", "always"]))]
+    return case
+
+
+def check_hook_fault(case: dict) -> Verdict:
+    """The three sinks still receive the same sequence when one of the hooks raises on some or all events."""
+    site, j = case["fault"]
+    v = Verdict()
+    env, cvs = C.run(case, faults={(site, j): "CallbackFault"})
+    out: list = []
+    fired = any(e[0] == "fault" for e in env.trace)
+    for cv in cvs:
+        info = oracles.c14(case, cv, out, case["cfg"].get("budget"))
+        v.tag("terminal:" + str(info["terminal"]))
+    v.violations = out
+    v.nontrivial = fired
+    v.tag("hook-raised" if fired else "hook-fault-not-reached", f"fault:{site}", "entry:" + case["entry"])
+    return v
+
+
 BREAKER_ENTRIES = [f"{a}Policy{v}.{m}" for a in ("", "Async") for v in ("", ".noretry") for m in ("call", "execute")]
 
 
@@ -154,6 +181,7 @@ PROP = Property(
     streams=[
         Stream("grammar", check, strategy=case_st(), quick=14000, thorough=300000),
         Stream("midflight", check, strategy=C.midflight_case(PROFILE, ["max_attempts", "deadline", "per_class", "max_unknown"], C.RECONF_ENTRIES), quick=3000, thorough=60000),
+        Stream("sinks_under_hook_faults", check_hook_fault, strategy=hook_fault_case(), quick=4000, thorough=80000),
         Stream("breaker_events", check_breaker_events, strategy=breaker_case(), quick=5000, thorough=100000),
     ],
 )
